@@ -49,6 +49,8 @@ type run struct {
 	nosweep     map[string]bool              // signed files left out of the bit-flip sweep
 	signed      []*signedFile
 	known       map[string]int
+	shipLimit   int // largest re-serialisation that still becomes a correspondence case (0: 4096)
+	longHex     int // long files written out in full in a failing input so far
 	structFails int // failing inputs found by the structural stage (the first thirty are recorded in full)
 }
 
@@ -95,8 +97,11 @@ func (r *run) addVerifyCase(kind string, doc int, file []byte, descr map[string]
 	out, _ := suiteVerifyFile(doc, file)
 	var pp *pman
 	var vt []vtEntry
+	// the table of the model's [parse] is fiano's own reader on the WHOLE file (refParse
+	// calls DetectBGV and Manifest.ReadFrom directly, not NewKM/NewBPM): what the suite's
+	// constructors hand to the codec is part of the glue under test
 	b, err := func() (b *bootguard.BootGuard, err error) {
-		p, _ := recoverCall(func() { b, err = newDoc(doc, file) })
+		p, _ := recoverCall(func() { b, err = refParse(doc, file) })
 		if p {
 			return nil, fmt.Errorf("panic")
 		}
@@ -131,7 +136,11 @@ func (r *run) addVerifyCase(kind string, doc int, file []byte, descr map[string]
 	}
 	descr["doc"] = docName(doc)
 	descr["outcome"] = out
-	if pp != nil && len(pp.ser) > 4096 {
+	limit := 4096
+	if r.shipLimit > limit {
+		limit = r.shipLimit
+	}
+	if pp != nil && len(pp.ser) > limit {
 		// a truncated/garbage file whose count fields make fiano allocate thousands of
 		// empty entries: the literal would be megabytes; the oracle still sees the outcome
 		r.c.Count("verify/oversized-reserialisation-not-shipped")
@@ -308,7 +317,7 @@ func (r *run) signOne(b *bootguard.BootGuard, doc int, scheme, hashName, keyName
 	case gen == 2 && vout != oOk && sl == signedEnd && !reqNull && lay.hashAlg != reqID:
 		c.OracleFail(idx, fmt.Sprintf("CBnT %s signed with %s/%s does not verify and the signature element names hash algorithm %#x, not the requested one: the suite changed the requested algorithm", docName(doc), scheme, hn[reqID], lay.hashAlg), "bootguard.Sign"+docName(doc), input)
 	default:
-		c.OracleFail(idx, fmt.Sprintf("manifest signed by the suite does not verify with the suite (outcome %d, signature covers %v bytes, expected %d, raw-valid %v, requested hash %#x, stored hash %#x, signed portion as serialised before signing: %v)", vout, lens, signedEnd, raw, reqID, lay.hashAlg, stable), "bootguard.Sign"+docName(doc)+"/Verify"+docName(doc), input)
+		c.OracleFail(idx, fmt.Sprintf("manifest signed by the suite (a file of %d bytes ending with byte %#02x) does not verify with the suite (outcome %d, signature covers %v bytes, expected %d, raw-valid %v, requested hash %#x, stored hash %#x, signed portion as serialised before signing: %v)", len(out), out[len(out)-1], vout, lens, signedEnd, raw, reqID, lay.hashAlg, stable), "bootguard.Sign"+docName(doc)+"/Verify"+docName(doc), input)
 	}
 	r.signed = append(r.signed, sf)
 	return sf
@@ -339,6 +348,7 @@ func main() {
 	}
 	timed("signAll", r.signAll)
 	timed("artifacts", r.artifacts)
+	timed("extremes", r.extremes)
 	timed("sweeps", r.sweeps)
 	timed("structural", r.structural)
 	timed("binding", r.binding)
@@ -351,6 +361,7 @@ func main() {
 	c.Rep.Extra["seconds"] = time.Since(t0).Seconds()
 	c.Finish("BG 1.0 and CBnT 2.0 KM/BPM built with fiano constructors + bootguard.NewVData/GetBPMPubHash (random SVN/ID/revision/flags, 0-4 KM hashes, 0-6 IBB segments, 1-3 digests, optional TXT/PCD/PM/reserved elements), signed by SignKM/SignBPM with EVERY key size the tool generates in EVERY tier (RSA-2048 and RSA-3072 from GenRSAKey, as KM key and as BPM key, and both mixed-size pairs) x {RSASSA,RSAPSS} x {SHA256,SHA384,SHA1,SM3} and verified by NewKM/NewBPM+VerifyKM/VerifyBPM; " +
 		"the signing entry points called with NAMES in any letter case: null/unknown hash names (ALGNULL, ALGUNKNOWN) for the CBnT SignBPM with both schemes and both key sizes, null/unknown PubKeyHashAlg for the CBnT SignKM, hash arguments of the BG 1.0 SignBPM (which has no hash choice), scheme names the tool does not offer (refused, or signed so that it verifies), names that are not hashes and ECC P-224/P-256 keys from GenECCKey (outside the quantifier: counted; nothing unverifiable may be accepted); the two GetAlgFromString tables on 46 names; " +
+		"the two far ends of the domain of a signed FILE: LENGTH -- BG 1.0 and CBnT BPMs with up to 255 IBB segments and a platform data element sized so that the signed file has exactly 2^k-1, 2^k, 2^k+1 bytes for every k from 11 up to 16 (BG 1.0) resp. 15 (CBnT, plus a 61000-byte file: the signature offset is a 16-bit field), CBnT KMs with 30..1300 hash entries (1.9..58 KiB), RSA-2048 and RSA-3072, both schemes, explicit and null hash names, each signed by the suite and judged through NewX+VerifyX, NewX+WriteX == file, NewBPMAndKM with a verifying partner, bit flips next to every 2^k position / at the end of the signed data / in the last byte of the file (files up to 9000 bytes are correspondence cases too); CONTENT at the end of the file -- series of 1200 (thorough: 4000) ordinary manifests of each of the four kinds signed by the suite (8 workers), every one judged (NewX+VerifyX, crypto/rsa on the stored bytes, NewX+WriteX == file), so that the last byte of the file runs through practically all 256 values (0xFF, 0x00, white space ...; reached values are in extra.series) and the signature value starts with 0x00 in some; the first file per kind ending with 0xff/0x00/0x20/0x0a or whose signature starts with 0x00/0xff becomes a correspondence case; the [parse] table of EVERY verify-file case is fiano's reader called by the harness on the whole file (DetectBGV + Manifest.ReadFrom, not NewKM/NewBPM), keyed by the file bytes; " +
 		"STRUCTURAL mutants of signed BPMs of both generations (rich manifests with every optional element and one or two IBB elements, RSA-2048 and RSA-3072, plus BPMs of the signing stage), cut at the documented structure IDs: every exchange of neighbouring elements (header and signature element included), wider exchanges, reversal, moves, every element left out, repeated behind itself and elsewhere, a chunk of StructInfo size with an unknown structure ID at every boundary (also several, with an exchange, with a payload) -- judged through NewBPM, NewBPMAndKM and NewBPMAndKMFromBIOS (file inside a hand-written firmware image) + VerifyBPM; SESSIONS: one per hardware-free entry point of pkg/provisioning/bootguard (42), the entry point called with every generation x argument variant (succeeding and failing calls: missing / random / valid images, manifests with exchanged elements, truncated KMs, unknown names, nil arguments), other entry points in between, and after EVERY call a panel (signed BPM of each generation, 6 structural mutants of each incl. an exchange of neighbours, bit-flipped BPMs, a signed KM and a bit-flipped KM) judged again; the same mutants under the configuration the tools' main() sets up by default (cbnt.StrictOrderCheck=false); the process configuration read after every call; " +
 		"single-bit mutants of signed files (quick: per kind and key size all bits of 2 resp. 1 files, a stride over 3 more; thorough: all bits of every file); KM x BPM key pairs over five keys of both sizes for KMHasBPMHash/BPMKeyMatchKMHash, on structures and through NewBPMAndKM on files; life cycles of ONE manifest object (KM: fresh / without hash / parsed from a signed file / written and read back / the shipped artifact, then 3-8 steps of GetBPMPubHash with another key (either size, ECC P-256) or algorithm, failing GetBPMPubHash calls (unknown name, non-hash name, null name, empty name, ed25519 and P-224 keys), SignKM, WriteKM+NewKM, KMSVN change, ending with SignKM; BPM: signed (explicit or null hash name), re-read, BPMSVN change, signed again with another key/scheme) with the binding check on the structures after every GetBPMPubHash and through NewBPMAndKM on the files after every signing, judged against the LAST key placed / LAST signer (ECC: must fail closed), plus Verify on the object and on its written file after every change; 13x13 password pairs, bit flips and truncations of the wrapped key; DetectBGV and unknown-Version cases. " +
 		"A case is non-trivial when it reaches a signature/hash/AEAD decision; distinct = distinct Gallina literal. Sweeps are oracle checks; a sample of mutants becomes correspondence cases.")
